@@ -25,7 +25,7 @@ ASSUMPTIONS = ["the sub-project task has only FS/SS inputs (FF/SF inputs could h
                "parent unit_time = 1", "file system replaced by the in-memory open()"]
 LEVEL_TEXT = "Seeded exploration over sub-project results, unit pairs, positions in the parent workflow and parent absences."
 LEVEL_NOTE = "Trusted: harness observers, the ceil() reference formula; sampling evidence only."
-PROBES = ["sub_simulated_with_unit_time", "refusal_with_explicit_path", "configured_ok", "refusal_unsimulated", "refusal_failed", "remove_abs_true", "sub_with_absence", "sub_absence_beyond_end",
+PROBES = ["reconfigured_after_resave", "sub_result_edited_before_saving", "sub_simulated_with_unit_time", "refusal_with_explicit_path", "configured_ok", "refusal_unsimulated", "refusal_failed", "remove_abs_true", "sub_with_absence", "sub_absence_beyond_end",
           "unit_ratio_gt1", "unit_ratio_lt1", "unit_ratio_non_integer", "parent_absence_during_subtask", "subtask_finished", "with_predecessor", "configured_twice", "sub_from_backward_simulation", "parent_json_roundtrip"]
 
 UNITS = [60, 120, 180, 420, 600, 1200, 3600, 86400, 129600]
@@ -73,12 +73,30 @@ def gen(rng, tier):
     subspec = {"model": subm, "cfg": subcfg, "ranks": G.gen_ranks(rng, subm), "file": "mem:sub.json", "simulate": mode != "unsimulated"}
     if mode == "ok" and rng.random() < 0.2:
         subspec["backward"] = {"due": False, "reverse": True}  # the sub-project result comes from a backward simulation
-    return {"sub": subspec, "parent_json": rng.random() < 0.25, "explicit_path": mode != "ok" and rng.random() < 0.5,
+    extra = {}
+    if mode == "ok" and rng.random() < 0.12:
+        first = copy.deepcopy(subspec)
+        for t_ in first["model"]["tasks"]:
+            t_["work"] = t_["work"] + rng.choice([1.0, 2.0])
+        first.pop("backward", None)
+        extra["first_sub"] = first
+    if mode == "ok" and subspec.get("backward") is None and subcfg.get("unit_time", 1) == 1 and rng.random() < 0.15:
+        a_ = rng.randint(0, 4)
+        subspec["edit"] = rng.choice([[a_], [a_, a_ + 2], [a_ + 2, a_]])
+    return {**extra, "sub": subspec, "parent_json": rng.random() < 0.25, "explicit_path": mode != "ok" and rng.random() < 0.5,
             "preconfigure": preconf, "mode": mode, "model": pm, "cfg": pcfg, "ranks": G.gen_ranks(rng, pm), "profile": pp}
 
 
 def extra_candidates(spec):
     from .. import shrink
+    if spec.get("first_sub") is not None:
+        c = copy.deepcopy(spec)
+        c.pop("first_sub")
+        yield c
+    if spec["sub"].get("edit"):
+        c = copy.deepcopy(spec)
+        c["sub"].pop("edit")
+        yield c
     for m in shrink.model_candidates(spec["sub"]["model"]):
         c = copy.deepcopy(spec)
         c["sub"]["model"] = m
@@ -96,14 +114,23 @@ def run(spec):
     res = C.campaign.Result()
     res.count("runs")
     sub = spec["sub"]
+    model = spec["model"]
+    st = Static(model)
+    pre_built = None
+    if spec.get("first_sub") is not None:
+        # an earlier result is saved to the same file and the task is configured from it; then the sub-project is revised,
+        # simulated again and saved to the same file: configuring again must take the revised result
+        res.count("reconfigured_after_resave")
+        scen.prepare_subproject(spec["first_sub"], spec.get("seed", 0))
+        pre_built = B.build(model, spec.get("ranks"))
+        t0_ = [t for t in pre_built.tasks if t.ID == "sub"][0]
+        D.call(lambda: t0_.set_all_attributes_from_json(remove_absence_time_list=bool(st.tasks["sub"]["sub"].get("remove_abs", False))))
     sp, so, sw = scen.prepare_subproject(sub, spec.get("seed", 0))
     if not sw.ok or (so is not None and not so.ok):
         res.count("sub_preparation_failed")
         res.digest = "subfail"
         return res
-    model = spec["model"]
-    st = Static(model)
-    b = B.build(model, spec.get("ranks"))
+    b = pre_built if pre_built is not None else B.build(model, spec.get("ranks"))
     p = b.project
     task = [t for t in b.tasks if t.ID == "sub"][0]
     tj = st.tasks["sub"]["sub"]
@@ -151,7 +178,11 @@ def run(spec):
     res.count("configured_ok")
     d_sub = sp.time
     L = sub["cfg"].get("absence", [])
-    inrange = set(a for a in L if 0 <= a < d_sub)  # (mirroring a backward result keeps the number of in-range absence steps)
+    d_before_edit = getattr(sp, "_verif_time_before_edit", d_sub)
+    n_inserted = d_sub - d_before_edit
+    if sub.get("edit"):
+        res.count("sub_result_edited_before_saving")
+    inrange = set(a for a in L if 0 <= a < d_before_edit)  # (mirroring a backward result keeps the number of in-range absence steps)
     if sub.get("backward") is not None:
         res.count("sub_from_backward_simulation")
     if L:
@@ -162,7 +193,7 @@ def run(spec):
         res.count("remove_abs_true")
     if sub["cfg"].get("unit_time", 1) != 1:
         res.count("sub_simulated_with_unit_time")
-    exp_work = d_sub - (len(inrange) if remove else 0)
+    exp_work = d_sub - ((len(inrange) + n_inserted) if remove else 0)  # (inserted steps are absence steps as well)
     if task.default_work_amount != exp_work:
         res.add("work", "C20.work_amount.remove_%s%s" % (remove, ".beyond_end" if any(a >= d_sub for a in L) else ""),
                 "sub-project ran %d steps with absence list %s; configured with remove_absence_time_list=%s the task has work amount %r, expected %r"
